@@ -13,12 +13,12 @@ P = {
  "C03": ("proved in both directions against the independent Lean specification Spec/TR31.lean + Spec/CMAC.lean: wrap_is_spec_valid (every block wrap emits is opened by the specification to the same key and header) and spec_valid_unwraps (every block the specification can build, with every encoding freedom, is opened by psec), and the refinement unwrap_eq_spec (on every canonical string psec's unwrap returns exactly what the specification's grammar-based verifier returns); partial only in that the specification's fidelity to the printed TR-31:2018 / SP 800-38B is validated (third-party vectors, OpenSSL CMAC), not proved", "Lean 4 theorems against an independent specification (parser, verifier, builder) + two-way interop correspondence"),
  "C04": ("fully proved for every PIN, PAN and every value of the random fill (format 4 enciphered under Ciphers.Lawful)", "Lean 4 round-trip theorems + correspondence with recorded entropy"),
  "C05": ("fully proved: encoders equal the nibble-level ISO 9564-1 specification", "Lean 4 equality with a from-the-standard specification + correspondence"),
- "C06": ("acceptance iff well-formedness fully proved for every block; format-4 PAN binding partial (needs AES pseudo-randomness)", "Lean 4 iff theorems over all 64/128-bit blocks + correspondence against Spec.specDecode"),
- "C07": ("fully proved: model of generate_cbc_mac / generate_retail_mac equals ISO 9797-1 algorithms 1 and 3 for every key, message, padding, length", "Lean 4 equality with the standard recurrence (induction over blocks) + correspondence"),
+ "C06": ("acceptance iff well-formedness fully proved for every block; format-4 PAN binding partial (needs AES pseudo-randomness)", "Lean 4 iff theorems over all 64/128-bit blocks + composition theorems with the encoders (Props/Translate: whatever a decoder accepts every encoder transports) + correspondence against Spec.specDecode"),
+ "C07": ("fully proved: model of generate_cbc_mac / generate_retail_mac equals ISO 9797-1 algorithms 1 and 3 for every key, message, padding, length", "Lean 4 equality with the standard recurrence (induction over blocks) + composition theorems with the des wrappers (Props/MacCbc: MAC = last block of encrypt_tdes_cbc; retail MAC via the ECB wrappers) + correspondence"),
  "C08": ("fully proved for every message and block size >= 1", "Lean 4 arithmetic/list theorems (omega, induction) + exhaustive small-length correspondence"),
  "C09": ("fully proved after fix F1: CVV equals the standard algorithm and has three decimal digits", "Lean 4 equality with specification + rare-path corpus correspondence"),
  "C10": ("fully proved: PVV equals the standard algorithm and has four decimal digits", "Lean 4 equality with specification + rare-path corpus correspondence"),
- "C11": ("fully proved: PIN/offset equal the standard, lengths, mutual inverses, pad case", "Lean 4 theorems (digit arithmetic mod 10) + correspondence over all windows"),
+ "C11": ("fully proved: PIN/offset equal the standard, lengths, mutual inverses, pad case", "Lean 4 theorems (digit arithmetic mod 10) + composition theorems with the PIN block codecs and the PVV (Props/Pipeline) + correspondence over all windows"),
  "C12": ("fully proved: framing of every emitted key block and str(header) re-load", "Lean 4 theorems on serializer arithmetic + correspondence around every boundary"),
  "C13": ("fully proved: length depends only on the effective mask", "Lean 4 arithmetic theorems (omega) + exhaustive implementation sweep"),
  "C14": ("partial: functional dependence on OS entropy, alphabet, exact uniformity of the choice map and injectivity proved; quality of os.urandom assumed", "Lean 4 theorems with entropy as an argument + entropy accounting correspondence + statistical falsifier"),
